@@ -340,6 +340,9 @@ def run(ctx):
         if not drej:
             ctx.note("rejected summaries were not confirmed input by input (conservative summary bound or an unrepeated timeout)")
         cands = select(candidates_from(drecs, drej))
+        if len(cands) > 60:
+            ctx.note("%d distinct violation signatures; reproducing the first 60" % len(cands))
+            cands = cands[:60]
 
     machinery = [c for c in cands if c["sig"].get("fail", "").startswith("machinery:")]
     if machinery:
